@@ -1,5 +1,54 @@
 // harness commands owned by the check of property C02 (see tools/props/C02.py)
-#[allow(unused_variables)]
+//
+// c02kind <src>...   : each source defines the global `v`; answers, per source, the KIND of the value the
+//                      implementation really built (variant, plus vec/tuple length or closure arity):
+//                      `K <i> <variant> <n>`  |  `K <i> error`.  The plug-in checks the abstract kind tags of
+//                      its value pool against this, so that the abstraction fed to NativesModel.v is
+//                      computed from the implementation's values and not merely asserted by the generator.
+use yarel::value::Value;
+
+fn kind_of(v: &Value) -> (&'static str, usize) {
+    match v {
+        Value::Boolean(_) => ("bool", 0),
+        Value::Number(_) => ("num", 0),
+        Value::ObjString(s) => ("str", s.as_str().len()),
+        Value::ObjStringIter(_) => ("iter", 0),
+        Value::ObjFunction(_) => ("function", 0),
+        Value::ObjNative(_) => ("native", 0),
+        Value::ObjClosure(c) => ("closure", c.function.arity),
+        Value::ObjClass(_) => ("class", 0),
+        Value::ObjInstance(_) => ("instance", 0),
+        Value::ObjBoundMethod(_) => ("bound", 0),
+        Value::ObjBoundNative(_) => ("bound", 1),
+        Value::ObjTuple(t) => ("tuple", t.elements.len()),
+        Value::ObjTupleIter(_) => ("iter", 1),
+        Value::ObjVec(v) => ("vec", v.borrow().elements.len()),
+        Value::ObjVecIter(_) => ("iter", 2),
+        Value::ObjRange(_) => ("range", 0),
+        Value::ObjRangeIter(_) => ("iter", 3),
+        Value::ObjHashMap(m) => ("map", m.borrow().elements.len()),
+        Value::ObjModule(_) => ("module", 0),
+        Value::ObjFiber(_) => ("fiber", 0),
+        Value::None => ("nil", 0),
+    }
+}
+
 pub fn dispatch(cmd: &str, args: &[&str], out: &mut Vec<String>) -> bool {
-    false
+    match cmd {
+        "c02kind" => {
+            for (i, a) in args.iter().enumerate() {
+                let mut vm = crate::new_vm();
+                let r = yarel::vm::interpret(&mut vm, crate::unhex_str(a), None);
+                match (r, vm.global("main", "v")) {
+                    (Ok(_), Some(v)) => {
+                        let (k, n) = kind_of(&v);
+                        out.push(format!("K {} {} {}", i, k, n));
+                    }
+                    _ => out.push(format!("K {} error", i)),
+                }
+            }
+            true
+        }
+        _ => false,
+    }
 }
